@@ -652,7 +652,7 @@ class Model:
             tr = (imp["trait"] or "").replace(" ", "")
             st = imp["self_ty"].replace(" ", "")
             if tr == f"From<{name}>" and st == "&str" and imp["module"] == mod:
-                m = self.single_match(imp, "from")
+                m = self.single_match(imp, "from", owner=name)
                 for arm in m["arms"]:
                     if not effective_attrs(arm.get("attrs", []), features)[0]:
                         continue
@@ -661,18 +661,22 @@ class Model:
                         raise Untranslatable(name, f"From<{name}> for &str: odd arm {arm['pat']}")
                     ser[variants.index(v)] = self.str_const(arm["body"], mod, features, owner=name)
             if tr == "TryFrom<&str>" and st == name and imp["module"] == mod:
-                m = self.single_match(imp, "try_from")
-                for arm in m["arms"]:
-                    if not effective_attrs(arm.get("attrs", []), features)[0]:
-                        continue
-                    pat = arm["pat"].replace(" ", "")
-                    if pat == "_":
-                        break
-                    body = arm["body"].replace(" ", "")
-                    mm = re.match(r"^Ok\((?:Self|%s)::(\w+)\)$" % name, body)
-                    if not mm or mm.group(1) not in variants or arm["guard"]:
-                        raise Untranslatable(name, f"TryFrom<&str>: odd arm {arm}")
-                    de.append([self.str_const(pat, mod, features, owner=name), variants.index(mm.group(1))])
+                try:
+                    m = self.single_match(imp, "try_from", owner=name)
+                    for arm in m["arms"]:
+                        if not effective_attrs(arm.get("attrs", []), features)[0]:
+                            continue
+                        pat = arm["pat"].replace(" ", "")
+                        if pat == "_":
+                            break
+                        body = arm["body"].replace(" ", "")
+                        mm = re.match(r"^Ok\((?:Self|%s)::(\w+)\)$" % name, body)
+                        if not mm or mm.group(1) not in variants or arm["guard"]:
+                            raise Untranslatable(name, f"TryFrom<&str>: odd arm {arm}")
+                        de.append([self.str_const(pat, mod, features, owner=name), variants.index(mm.group(1))])
+                except Untranslatable as e:
+                    # the direction that decides which spellings are *accepted*
+                    raise Untranslatable(name, "recognising table: " + str(e))
         if any(s is None for s in ser):
             raise Untranslatable(name, "From<Enum> for &str table incomplete")
         seen, uniq = set(), []
@@ -683,7 +687,7 @@ class Model:
         de = sorted(uniq, key=lambda x: (x[1], x[0]))    # arms with distinct patterns commute
         return ser, de
 
-    def single_match(self, imp, fn_name):
+    def single_match(self, imp, fn_name, owner=None):
         for f in imp["items"]:
             if f["kind"] == "fn" and f["name"] == fn_name:
                 if not f["matches"]:
@@ -691,10 +695,19 @@ class Model:
                     dm = re.fullmatch(r"\{ (?:\w+|Self) (?:\.|::) (\w+) \((?:\w*)\) \}", (f.get("body") or "").strip())
                     if dm:
                         cands = [g for i2 in self.impls if i2["trait"] is None and i2["module"] == imp["module"]
+                                 and (owner is None or i2["self_ty"].replace(" ", "").split("<")[0] == owner)
                                  for g in i2["items"] if g["kind"] == "fn" and g["name"] == dm.group(1) and g.get("matches")]
                         if len(cands) == 1:
                             return cands[0]["matches"][0]
                     raise Untranslatable(imp["self_ty"], f"{fn_name}: no match expression")
+                if owner is not None and fn_name == "try_from":
+                    # the match must be the whole body and scrutinise the parameter itself: a statement in front of it
+                    # (trimming, case folding, a prefix strip) changes what is accepted without touching any arm
+                    pm = re.search(r"\(\s*(?:mut\s+)?([A-Za-z_][A-Za-z0-9_]*)\s*:", f.get("sig", ""))
+                    pn = pm.group(1) if pm else None
+                    b = (f.get("body") or "").strip()
+                    if pn is None or not re.match(r"\{ (?:Ok \( )?match %s \{" % re.escape(pn), b):
+                        raise Untranslatable(imp["self_ty"], f"{fn_name}: the match is not the whole body / not on the parameter itself")
                 return f["matches"][0]
         raise Untranslatable(imp["self_ty"], f"fn {fn_name} not found")
 
